@@ -38,7 +38,11 @@ def cases(tier, seed):
                             # every 5th: float64 counts asked for through dtypes= (values are multiples of 1/4)
                             **({"scale": 4} if F_h("m5@35", 5) == 1 else {}), "labels": ["default", "perm", "offset"][F_h("m3@35", 3)],
                             # the path already holds a single-cell file of an EARLIER run with other cells (and one of the same name)
-                            "prior_cells": [] if F_h("prior", 3) else ["old1", "old 2", cn[0]]}
+                            "prior_cells": [] if F_h("prior", 3) else ["old1", "old 2", cn[0]],
+                            # the cells from this index on are ADDED by a second call in append mode
+                            "batch2_from": [0, 0, 1, 2][F_h("batch2", 4)],
+                            # column order of the bin table(s): the three standard columns need not come first
+                            "bincols": ["std", "std", "extra_first", "extra_mid"][F_h("bincols", 4)]}
 
 
 def run(tier, seed, only_case=None):
